@@ -239,6 +239,31 @@ def h_plain_parity(ctx, what):
         for dt in ('float64', 'f4', 'i4', complex, float, int, np.float32, None):
             same(algopy.zeros(3, dtype=dt), np.zeros(3, dtype=dt), 'zeros(3, dtype=%r)' % (dt,))
             same(algopy.ones((2, 2), dtype=dt), np.ones((2, 2), dtype=dt), 'ones((2, 2), dtype=%r)' % (dt,))
+    elif what == 'zeros / zeros_like with a polynomial prototype':
+        proto = algopy.UTPM(np.array([[[np.inf, 1., 2.]], [[1., 1., 1.]]]))
+        same(algopy.zeros(3, dtype=proto).data, np.zeros((2, 1, 3)), 'zeros(3, dtype=<polynomial whose first entry is inf>)')
+        same(algopy.zeros_like(proto).data, np.zeros((2, 1, 3)), 'zeros_like(<polynomial whose first entry is inf>)')
+        same(algopy.zeros((2, 2), dtype=proto).data, np.zeros((2, 1, 2, 2)), 'zeros((2,2), dtype=<polynomial>)')
+        empty = algopy.UTPM(np.zeros((2, 1, 0, 3)))
+        try:
+            same(algopy.zeros_like(empty).data, np.zeros((2, 1, 0, 3)), 'zeros_like(<empty polynomial>)')
+        except Exception as e:
+            ctx.fact(False, 'zeros_like(<empty polynomial>) raised %s' % type(e).__name__)
+        fin = algopy.UTPM(np.ones((2, 1, 3)))
+        for shp, label in (([2, 3], 'list'), (np.array([2, 3]), 'integer array'), ((np.int64(2), 3), 'tuple with a numpy integer')):
+            try:
+                same(algopy.zeros(shp, dtype=fin).data, np.zeros((2, 1, 2, 3)), 'zeros(shape given as %s, dtype=<polynomial>)' % label)
+                same(algopy.ones(shp, dtype=fin).data[0], np.ones((1, 2, 3)), 'ones(shape given as %s, dtype=<polynomial>)' % label)
+            except Exception as e:
+                ctx.fact(False, 'zeros/ones(shape given as %s, dtype=<polynomial>) raised %s' % (label, type(e).__name__))
+    elif what == 'modulus of a complex polynomial':
+        z0 = np.array([3 + 4j, -3 + 4j, -1 - 1j, 2 - 0.5j])
+        z = algopy.UTPM(np.array([z0, [1 + 1j, 2 - 1j, 0.5j, 1.0]]).reshape((2, 1, 4)))
+        for label, f in (('abs(z)', lambda: abs(z)), ('z.abs()', lambda: z.abs()), ('z.fabs()', lambda: z.fabs()), ('algopy.absolute(z)', lambda: algopy.absolute(z))):
+            try:
+                same(np.asarray(f().data[0, 0]).real, np.abs(z0), '%s zeroth coefficient == numpy.abs' % label)
+            except Exception as e:
+                ctx.fact(False, '%s raised %s' % (label, type(e).__name__))
     elif what == 'prod and sum of plain arrays':
         a = np.array([[1.5, 2.0, -0.5], [3.0, 0.25, 2.0]])
         same(algopy.prod(a[0]), np.prod(a[0]), 'prod(vector)')
@@ -293,6 +318,31 @@ def h_max(ctx, D, P, n):
         ctx.fact(int(am[p]) == k, 'argmax dir %d: %s == %d' % (p, am[p], k))
         for d in range(D):
             ctx.eq(M[d, p], X[d, p, k], 'max[%d,%d] == x[argmax]' % (d, p))
+
+
+def h_minmax_traced(ctx, fname, D, P):
+    """algopy.minimum / maximum of traced nodes: the value seen through the nodes equals the
+    element-wise result on the polynomials (and NumPy's on the zeroth coefficients)"""
+    algopy = symx.load_algopy()
+    X = O.make_input(ctx, O.Arg('utpm', (2,)), 'x', D, P)
+    Y = O.make_input(ctx, O.Arg('utpm', (2,)), 'y', D, P)
+    for p in range(P):
+        for i in range(2):
+            ctx.assume(X[0, p, i] != Y[0, p, i])
+    f = getattr(algopy, fname)
+    direct = plain(f(mk_utpm(ctx, algopy, X), mk_utpm(ctx, algopy, Y)).data)
+    cg = algopy.CGraph()
+    fx, fy = algopy.Function(mk_utpm(ctx, algopy, X)), algopy.Function(mk_utpm(ctx, algopy, Y))
+    fz = f(fx, fy)
+    cg.trace_off()
+    ctx.fact(isinstance(fz, algopy.Function) and isinstance(fz.x, algopy.UTPM), '%s of traced nodes is a traced polynomial' % fname)
+    if isinstance(fz, algopy.Function) and isinstance(fz.x, algopy.UTPM):
+        ctx.eq(plain(fz.x.data), direct, '%s(traced x, traced y) == %s(x, y)' % (fname, fname))
+    for p in range(P):
+        for i in range(2):
+            big = bool(X[0, p, i] > Y[0, p, i])
+            ref = (X if big else Y) if fname == 'maximum' else (Y if big else X)
+            ctx.eq(direct[0, p, i], ref[0, p, i], '%s zeroth coefficient == numpy [%d,%d]' % (fname, p, i))
 
 
 def h_tie(ctx, fname, D, P, same_object=False):
@@ -399,9 +449,10 @@ def units(tier, seed):
         for (ls, rk, rs) in [((2,), 'utpm', ()), ((), 'utpm', (3,)), ((), 'ndarray', (3,)), ((1,), 'ndarray', (2, 1))]:
             add('compare/x%s %s %s%s, broadcasting, P=2' % (ls, cmpop, rk, rs), 'h_compare', cmpop=cmpop, rkind=rk, shape=ls, D=2, P=2, rshape=rs)
     add('max/D2,P2,n3', 'h_max', D=2, P=2, n=3)
-    for what in ('integer arguments of special functions', 'zeros and ones with NumPy dtypes', 'prod and sum of plain arrays'):
+    for what in ('integer arguments of special functions', 'zeros and ones with NumPy dtypes', 'zeros / zeros_like with a polynomial prototype', 'modulus of a complex polynomial', 'prod and sum of plain arrays'):
         add('plain arguments/%s' % what, 'h_plain_parity', what=what)
     for fn in ('maximum', 'minimum'):
+        add('%s of traced nodes/D2,P2' % fn, 'h_minmax_traced', fname=fn, D=2, P=2)
         add('%s with tied zeroth coefficients/D3,P2' % fn, 'h_tie', fname=fn, D=3, P=2)
         add('%s(x, x)/D3,P2' % fn, 'h_tie', fname=fn, D=3, P=2, same_object=True)
     for f in DISPATCH + ['erf', 'erfi', 'dawsn', 'logit', 'expit', 'gammaln', 'psi', 'dot', 'sum', 'shape']:
